@@ -826,6 +826,11 @@ func (x *c01Run) editIndependence(s1 []byte, outs [][]byte, idx []int, chunks []
 			x.violate("edit-independence", sig, fmt.Sprintf("record %d: the edit operations work on the record read alone but fail (%s) on the same record read from the stream", idx[k], gotFail[k]))
 			continue
 		}
+		if form := learntFormOnly(refs[k], got[k]); form != "" {
+			// the known dependence of the written form on what the process has read before
+			x.violate("fixed-point", "learnt-"+form+"-form", fmt.Sprintf("record %d: written by the process that read the whole stream it differs from what a process that read only this record writes, only in the form of qualifiers of a name without built-in type; every value is the same", idx[k]))
+			continue
+		}
 		if !bytes.Equal(got[k], refs[k]) {
 			x.violate("edit-independence", sig, fmt.Sprintf("record %d: edited after being read from a %d-record stream (%s) it is written differently (first difference in %s) than when its own bytes are read alone in a fresh process and edited the same way", idx[k], len(idx), mode, firstDiffField(refs[k], got[k])))
 		}
